@@ -157,6 +157,11 @@ func (g *Gen) amount(max *big.Int) string {
 }
 
 func (g *Gen) fee() string {
+	if g.R.Intn(5) == 0 && bigOf(g.W.Cfg.UserFunds).BitLen() > 135 {
+		// a fee beyond 2^128 (ordering by fee must not depend on a fixed narrower width)
+		f := new(big.Int).Lsh(big.NewInt(1), uint(128+g.R.Intn(5)))
+		return f.Add(f, big.NewInt(int64(g.R.Intn(1000)))).String()
+	}
 	switch g.R.Intn(6) {
 	case 0:
 		return "0"
@@ -280,6 +285,9 @@ func (g *Gen) Step() {
 		}
 		if g.R.Intn(3) == 0 {
 			in.Dest = "u" + strconv.Itoa(g.R.Intn(len(w.Users)))
+		}
+		if t.Chain == "minter" && (in.Chain2 == "ethereum" || in.Chain2 == "bsc") && g.R.Intn(3) == 0 {
+			in.Op = []string{"bare", "0X", "lower"}[g.R.Intn(3)]
 		}
 		g.emit(in)
 	case "poll_all":
@@ -726,7 +734,12 @@ func (g *Gen) sizeBurstMulti() {
 				k = left
 			}
 			left -= k
-			g.emit(Intent{T: "user_send", U: txi % len(w.Users), Chain: t.Chain, Denom: t.Denom, Amt: "1000", Fee: strconv.Itoa(g.R.Intn(50)), N: k, Net: "seq" + strconv.Itoa(txi/len(w.Users))})
+			f := strconv.Itoa(g.R.Intn(50))
+			if txi%9 == 4 && bigOf(w.Cfg.UserFunds).BitLen() > 135 {
+				x := new(big.Int).Lsh(big.NewInt(1), 128)
+				f = x.Add(x, big.NewInt(int64(g.R.Intn(3)))).String() // low 128 bits nearly zero: below every ordinary fee if truncated
+			}
+			g.emit(Intent{T: "user_send", U: txi % len(w.Users), Chain: t.Chain, Denom: t.Denom, Amt: "1000", Fee: f, N: k, Net: "seq" + strconv.Itoa(txi/len(w.Users))})
 			txi++
 		}
 	}
@@ -739,11 +752,16 @@ func (g *Gen) sizeBurst() {
 	t := g.token()
 	n := []int{20, 70, 101, 130}[g.R.Intn(4)]
 	fee := g.fee()
+	whale := bigOf(w.Cfg.UserFunds).BitLen() > 135 && g.R.Intn(2) == 0
 	for i := 0; i < n; i++ {
 		u := i % len(w.Users)
 		f := fee
 		if g.R.Intn(2) == 0 {
 			f = strconv.Itoa(g.R.Intn(50))
+		}
+		if whale && i%7 == 3 { // a few fees beyond 2^128 among ordinary ones
+			x := new(big.Int).Lsh(big.NewInt(1), 128)
+			f = x.Add(x, big.NewInt(int64(g.R.Intn(3)))).String() // low 128 bits nearly zero: below every ordinary fee if truncated
 		}
 		g.emit(Intent{T: "user_send", U: u, Chain: t.Chain, Denom: t.Denom, Amt: "1000", Fee: f, Net: "seq" + strconv.Itoa(i/len(w.Users))})
 	}
